@@ -382,7 +382,12 @@ def load_findings(pid):
         except OSError:
             continue
         ents.extend(d.get('entries', []))
-    return [e for e in ents if e.get('property') == pid and e.get('kind') == 'finding']
+    out, seen = [], set()
+    for e in ents:
+        if e.get('property') == pid and e.get('kind') == 'finding' and e.get('id') not in seen:
+            seen.add(e.get('id'))
+            out.append(e)
+    return out
 
 
 def match_finding(findings, sig):
